@@ -568,6 +568,10 @@ class C13(Prop):
         yield {"op": "ds_history", "ops": [{"op": "axes_setter", "axes": [
             {"name": "x", "kind": "O", "labels": [], "fresh": True}, {"name": "v", "kind": "i", "labels": [["n", 5, 1]], "fresh": False},
             {"name": "t", "kind": "f", "labels": [["n", 13, 2], ["n", 39, 4]], "fresh": False}]}]}
+        yield {"op": "ds_history", "ops": [{"op": "set", "key": "c", "axes": [{"name": "v", "kind": "f", "labels": [["n", 33, 4], ["n", 5, 1]]}], "vb": 4},
+                                            {"op": "axes_setter", "axes": [
+            {"name": "x", "kind": "O", "labels": [], "fresh": True}, {"name": "v", "kind": "i", "labels": [["n", 5, 1]], "fresh": False},
+            {"name": "t", "kind": "f", "labels": [["n", 13, 2], ["n", 39, 4]], "fresh": False}]}]}
         n = 650 if tier == "quick" else 14000
         for _ in range(n):
             start, ops = gen_history(rng, from_ctor=rng.random() < 0.3)
@@ -931,8 +935,10 @@ class C13(Prop):
             usedd = set(d for v in o["vars"].values() for d in v)
             if t == "append_axis" and ok:
                 direct.add(op["name"])
-            if t == "axes_setter" and ok:
-                # (a history that starts from the EMPTY dataset has no previous state: every axis it is given is appended directly)
+            if t == "axes_setter":
+                # (a history that starts from the EMPTY dataset has no previous state: every axis it is given is appended directly;
+                #  a setter REFUSED half-way - a later axis of the list has the wrong size - has already appended the new axes
+                #  that precede it: they are directly appended axes too, the statement does not say a refused setter restores)
                 direct |= set(a["name"] for a in op["axes"] if a["name"] not in (prev["dims"] if prev is not None else ()))
             if t in FAMILY_RENAME and ok and prev is not None and len(prev["dims"]) == len(o["dims"]) and "copy" not in o:
                 ren = dict(zip(prev["dims"], o["dims"]))
